@@ -862,6 +862,13 @@ DRV_OP(haslink) {
         return std::string(r ? "1" : "0");
     });
 }
+// haslinkh <rel> <holder> handle <slot> <linked|foreign> : haslink by handle, with the generator's remark whether that very entity is
+// linked there (`foreign`: it is not — e.g. an entity of the same NAME from another block)
+DRV_OP(haslinkh) {
+    if (a.size() != 6 || a[3] != "handle") throw ProtoError("haslinkh arity");
+    Args q(a.begin(), a.begin() + 5); q[0] = "haslink";
+    return registry()["haslink"](q);
+}
 // getlink <rel> <holder> <how name|id|idx> <key> => ok <id|~>
 DRV_OP(getlink) {
     if (a.size() != 5) throw ProtoError("getlink arity");
